@@ -377,6 +377,8 @@ fn rel_round(case: &Value) -> Value {
     ev
 }
 
+fn copy_eq(iv: &Interval<f64>) -> bool { let c = *iv; c == *iv }
+
 fn op_kind(c: &Value) -> &'static str {
     match c["op"].as_str().unwrap() {
         "iv.scalar" => "scalar",
@@ -469,6 +471,22 @@ pub fn run(case: &Value) -> Vec<Value> {
         "iv.scalar" | "iv.binary" | "iv.relative_to" => arith(case, ty),
         "iv.approx" => approx(case),
         "iv.relative_round" => rel_round(case),
+        "iv.infinite_bounds" => {
+            // two-sided float intervals whose bounds are infinities: codes 0 = -inf, 1 = 1.0, 2 = +inf
+            let f = |c: i64| match c { 0 => f64::NEG_INFINITY, 1 => 1.0, _ => f64::INFINITY };
+            let (lo, hi) = (f(case["lo"].as_i64().unwrap()), f(case["hi"].as_i64().unwrap()));
+            let mut ev = case.clone();
+            ev["out"] = match std::panic::catch_unwind(|| Interval::new(lo, hi)) {
+                Ok(Ok(iv)) => json!({"tag": "ok", "two": iv.is_two_sided(), "degenerate": iv.is_degenerate(),
+                                     "width_some": iv.width().is_some(), "has_low": iv.low().is_some(), "has_high": iv.high().is_some(),
+                                     "low_same": iv.low_f().to_bits() == lo.to_bits(), "high_same": iv.high_f().to_bits() == hi.to_bits(),
+                                     "contains_lo": iv.contains(&lo), "contains_hi": iv.contains(&hi),
+                                     "copy_eq": copy_eq(&iv)}),
+                Ok(Err(_)) => json!({"tag": "err"}),
+                Err(_) => json!({"tag": "panic"}),
+            };
+            ev
+        }
         _ => {
             let r = match ty {
                 "i32" => generic::<i32>(case, ty),
